@@ -86,6 +86,53 @@ def corrupt_intact_refused(run):
     return None
 
 
+def _resume_case(run, want):
+    hist = None
+    for e in run:
+        if e.get("op") == "history":
+            hist = e
+        if e.get("op") == "resume" and e.get("open") == "ok" and want(e):
+            return hist, e
+    return None, None
+
+
+def corrupt_resume_old(run):
+    """continuation: a record stored before the reopen changed its bytes after the appends"""
+    hist, e = _resume_case(run, lambda e: e["writable"] and e["added"] > 0)
+    if e is None:
+        return None
+    e["old1"] = {"len": e["old1"]["len"], "h": [e["old1"]["h"][0] ^ 1, e["old1"]["h"][1]]}
+    return [run[0], hist, e]
+
+
+def corrupt_resume_id(run):
+    """continuation: a put after the reopen re-issued an id that was already in use"""
+    hist, e = _resume_case(run, lambda e: e["has_ids"] and e["ids0"] and e["new_ids"])
+    if e is None:
+        return None
+    e["new_ids"] = [e["ids0"][-1]] + e["new_ids"][1:]
+    return [run[0], hist, e]
+
+
+def corrupt_resume_again(run):
+    """continuation: the second close + reopen presents something else than the live object held"""
+    hist, e = _resume_case(run, lambda e: True)
+    if e is None:
+        return None
+    e["again"] = {"len": e["again"]["len"] + 1, "h": e["again"]["h"]}
+    return [run[0], hist, e]
+
+
+def corrupt_resume_ro(run):
+    """continuation: a read-only open accepted an append"""
+    hist, e = _resume_case(run, lambda e: not e["writable"] and e["mode"].startswith("ro_") or e["mode"] == "ro" and e["len0"] > 0)
+    if e is None:
+        return None
+    e["added"] = 1
+    e["len1"] = e["len0"] + 1
+    return [run[0], hist, e]
+
+
 def _scratch():
     """scratch directory of the harness: <work>/C19-tmp (work differs when ZV_REPO selects another tree)"""
     return os.path.join(vlib.WORK, "C19-tmp")
@@ -136,6 +183,14 @@ def run(ctx):
         ctx.selftest_corrupt(TRACE, ok_file, corrupt_outcome, "outcome of a refused image changed to signal")
         ctx.selftest_corrupt(TRACE, ok_file, corrupt_extent, "extent of a reopen moved beyond the end of the image")
         ctx.selftest_corrupt(TRACE, ok_file, corrupt_intact_refused, "undamaged sync image refused")
+        allf = os.path.join(ctx.work, "all-runs.ndjson")
+        with open(allf, "w") as out:
+            for f in files:
+                out.write(open(f).read())
+        ctx.selftest_corrupt(TRACE, allf, corrupt_resume_old, "continuation: an earlier record changed its bytes after the appends")
+        ctx.selftest_corrupt(TRACE, allf, corrupt_resume_id, "continuation: a put after the reopen re-issued an id in use")
+        ctx.selftest_corrupt(TRACE, allf, corrupt_resume_again, "continuation: second reopen differs from the live object")
+        ctx.selftest_corrupt(TRACE, allf, corrupt_resume_ro, "continuation: a read-only open accepted an append")
     finally:
         vlib.sh([os.path.join(vlib.TARGET, "release", BIN), "--mode", "clean", "--scratch", _scratch()])
     cov = ctx.cov
